@@ -29,8 +29,34 @@ TABLE_OF = {"create_junction": "junction", "create_sink": "sink", "create_source
             "create_heat_consumers": "heat_consumer"}
 
 
+def make_fluid(spec):
+    """Custom fluid from a JSON spec {"name", "type", "props": {prop: [kind, ...]}}."""
+    from pandapipes.properties.fluids import (Fluid, FluidPropertyConstant, FluidPropertyLinear,
+                                              FluidPropertyInterExtra, FluidPropertyPolynominal,
+                                              FluidPropertySutherland)
+    props = {}
+    for name, p in spec["props"].items():
+        kind = p[0]
+        if kind == "constant":
+            props[name] = FluidPropertyConstant(p[1], warn_dependent_variables=bool(p[2]))
+        elif kind == "linear":
+            props[name] = FluidPropertyLinear(p[1], p[2])
+        elif kind == "interextra":
+            props[name] = FluidPropertyInterExtra(np.array(p[1], dtype=float), np.array(p[2], dtype=float))
+        elif kind == "polynominal":
+            props[name] = FluidPropertyPolynominal(np.array(p[1], dtype=float), np.array(p[2], dtype=float), int(p[3]))
+        elif kind == "sutherland":
+            props[name] = FluidPropertySutherland(p[1], p[2], p[3])
+        else:
+            raise ValueError(kind)
+    return Fluid(spec["name"], spec["type"], **props)
+
+
 def build(program):
-    net = pp.create_empty_network(name=program.get("name", ""), fluid=program["fluid"])
+    if program.get("fluid_spec"):
+        net = pp.create_empty_network(name=program.get("name", ""), fluid=make_fluid(program["fluid_spec"]))
+    else:
+        net = pp.create_empty_network(name=program.get("name", ""), fluid=program["fluid"])
     for op in program["ops"]:
         apply_create(net, op)
     return net
